@@ -175,3 +175,122 @@ def canaries(can_succeed=True, can_fail=True):
     if can_fail:
         out.append('canary_fail')
     return tuple(out)
+
+
+# =========================================================================
+# combinators: oracle stubs with a ghost operator automaton (DESIGN.md 4.3)
+# =========================================================================
+NR = 4
+T_NONE = -1
+
+
+def comb_prelude(tracking):
+    p = prelude(tracking)
+    p += '''
+/* ---- ghost protocol state ---- */
+#define NR %d
+#define T_NONE (-1)
+int g_turn; size_t g_pos; int g_done; size_t g_iter;
+int g_called[NR]; int g_ok[NR]; size_t g_len[NR]; size_t g_ncalls[NR];
+unsigned long g_exc_obj; int g_exc_type;
+size_t g_e_off, g_e_byte, g_e_line, g_e_col;          /* entry iterator of the combinator under proof */
+#define VALID_STUB(in) (__CPROVER_r_ok(in,sizeof(*(in))) && PTRS_OK(in) && CNT_POS(in))
+#define EXC_OK (vf_exc.pending == 0)
+#define BOOL01(x) ((x) == 0 || (x) == 1)
+#define SATINC(x) ((x) < ((size_t)1<<60) ? (x) + 1 : (x))   /* ghost iteration counter saturates: no wrap-around */
+''' % NR
+    if tracking == 'eager':
+        p += '''#define AT_ENTRY(in) (OFF(CUR(in))==g_e_off && BYTE(in)==g_e_byte && LINE(in)==g_e_line && COL(in)==g_e_col)
+#define SET_ENTRY(in) do { g_e_off = OFF(CUR(in)); g_e_byte = BYTE(in); g_e_line = LINE(in); g_e_col = COL(in); } while(0)
+'''
+    else:
+        p += '''#define AT_ENTRY(in) (OFF(CUR(in))==g_e_off)
+#define SET_ENTRY(in) do { g_e_off = OFF(CUR(in)); } while(0)
+'''
+    return p
+
+
+def parse_stub(fi):
+    """(index, A, M) of an opaque sub-rule instantiation vf::R<i>::match<A,M,...>"""
+    import re
+    m = re.search(r'vf::R<(\d+)>::match<\(tao::pegtl::apply_mode\)(\d), \(tao::pegtl::rewind_mode\)(\d)', fi['pretty'])
+    if not m:
+        return None
+    return int(m.group(1)), int(m.group(2)), int(m.group(3))   # A: 1=action 0=nothing ; M: 0=required 1=optional
+
+
+def rule_stub(spec, param='in'):
+    """returns a callable(fi)->Contract implementing the oracle stub for sub-rule i under the
+    operator automaton `spec`: spec[i] = dict(A=expected apply mode or None, next_ok, next_fail,
+    at_entry=bool, loop=bool).  next_* are C expressions for g_turn."""
+    def mk(fi):
+        ps = parse_stub(fi)
+        if ps is None:
+            return None
+        i, a, m = ps
+        s = spec.get(i)
+        if s is None:
+            return Contract(R('0', 'stub-unexpected-subrule', ('C01',)), A('IT(%s)' % param))
+        pre = ['VALID_STUB(%s)' % param, 'EXC_OK', 'g_turn == %d' % i, 'OFF(CUR(%s)) == g_pos' % param, 'g_done == 0']
+        c = Contract()
+        c.add(R(' && '.join(pre), 'stub-order-and-position', s.get('props_order', ('C01', 'C09'))))
+        if s.get('A') is not None:
+            c.add(R('%d == %s' % (a, s['A']), 'stub-apply-mode', ('C04', 'C01')))
+        if s.get('M') is not None:
+            c.add(R('%d == %s' % (m, s['M']), 'stub-rewind-mode', ('C02',)))
+        if s.get('at_entry'):
+            c.add(R('AT_ENTRY(%s)' % param, 'stub-at-entry-iterator', ('C01', 'C02')))
+        for extra in s.get('requires', []):
+            c.add(extra)
+        c.add(A('IT(%s), g_turn, g_pos, g_done, g_iter, g_called[%d], g_ok[%d], g_len[%d], g_ncalls[%d], vf_exc, g_exc_obj, g_exc_type' % (param, i, i, i, i)))
+        c.add(E('BOOL01(RET) && BOOL01(g_ok[%d]) && BOOL01(vf_exc.pending) && BOOL01(g_done)' % i, 'stub'))
+        c.add(E('PTRS_OK(%s) && CNT_POS(%s) && IN_END(%s)==OLD(IN_END(%s)) && IN_BEGIN(%s)==OLD(IN_BEGIN(%s))' % ((param,) * 6), 'stub'))
+        c.add(E('MONO(%s)' % param, 'stub'))
+        c.add(E('g_called[%d] == 1 && g_ncalls[%d] == OLD(g_ncalls[%d]) + 1' % (i, i, i), 'stub'))
+        c.add(E('vf_exc.pending ==> (g_turn == T_NONE && vf_exc.obj == g_exc_obj && vf_exc.type == g_exc_type && g_exc_obj != 0)', 'stub'))
+        c.add(E('!vf_exc.pending ==> (RET == g_ok[%d])' % i, 'stub'))
+        c.add(E('(!vf_exc.pending && g_ok[%d]) ==> (CONSUMED(%s) == g_len[%d] && g_turn == (%s) && g_pos == OFF(CUR(%s)) && g_done == 0 && g_iter == SATINC(OLD(g_iter)))'
+                % (i, param, i, s['next_ok'], param), 'stub'))
+        fail = '(!vf_exc.pending && !g_ok[%d]) ==> (g_turn == (%s) && g_done == %d && g_iter == OLD(g_iter)' % (i, s['next_fail'], 1 if s.get('done_on_fail') else 0)
+        if s.get('pos_fail') == 'entry':
+            fail += ' && g_pos == g_e_off'
+        elif s.get('pos_fail') == 'same':
+            fail += ' && g_pos == OLD(g_pos)'
+        fail += ')'
+        c.add(E(fail, 'stub'))
+        if m == 0:
+            c.add(E('(!vf_exc.pending && !g_ok[%d]) ==> ITER_UNCHANGED(%s)' % (i, param), 'stub'))
+        if s.get('progress'):
+            c.add(E('(!vf_exc.pending && g_ok[%d]) ==> g_len[%d] > 0' % (i, i), 'stub'))
+        return c
+    return mk
+
+
+def comb_requires(param='in'):
+    return R('VALID_PRE(%s) && EXC_OK && g_turn == 0 && g_pos == OFF(CUR(%s)) && g_done == 0 && g_iter == 0 && AT_ENTRY(%s)'
+             ' && g_called[0]==0 && g_called[1]==0 && g_called[2]==0 && g_called[3]==0'
+             ' && g_ncalls[0]==0 && g_ncalls[1]==0 && g_ncalls[2]==0 && g_ncalls[3]==0 && g_exc_obj == 0' % (param, param, param))
+
+
+def comb_assigns(param='in'):
+    return A('IT(%s), g_turn, g_pos, g_done, g_iter, g_called, g_ok, g_len, g_ncalls, vf_exc, g_exc_obj, g_exc_type' % param)
+
+
+def comb_common(m, param='in', props_rewind=('C02',), exc_props=('C05',)):
+    """clauses every combinator carries: RC-VALID, RC-MONO on every exit, RC-REWIND, exception unchanged"""
+    out = [
+        E('VALID_POST(%s)' % param, 'RC-VALID', ('C02', 'C03')),
+        E('MONO(%s)' % param, 'RC-MONO', ('C02',)),
+        E('BOOL01(RET)', 'ret-bool'),
+        E('vf_exc.pending ==> (vf_exc.obj == g_exc_obj && vf_exc.type == g_exc_type)', 'EXC-UNCHANGED', exc_props),
+    ]
+    if m == 0:
+        out.append(E('(!vf_exc.pending && !RET) ==> ITER_UNCHANGED(%s)' % param, 'RC-REWIND', props_rewind))
+    return out
+
+
+def comb_harness(intype_c, tracking, call):
+    return input_harness(intype_c, tracking, call,
+                         pre_call='  SET_ENTRY(&in); g_turn = 0; g_pos = OFF(CUR(&in)); g_done = 0; g_iter = 0; g_exc_obj = 0;\n'
+                                  '  for (int i = 0; i < NR; ++i) { g_called[i] = 0; g_ncalls[i] = 0; }\n'
+                                  '  vf_exc.pending = 0;\n')
